@@ -21,6 +21,8 @@
 EXTENDS MatReg
 
 MCPropMaps == {p \in [Keys -> 0..NV] : "note" \in Keys => p["note"] <= 1}
+\* what a user passes in the quick run: nothing, a density, another density with a note (every map stays reachable by editing)
+MCPropChoices == {NoProps, [NoProps EXCEPT !["density"] = 1], [NoProps EXCEPT !["density"] = 2, !["note"] = 1]}
 \* the thorough run: three objects, both reserved keys (the second with one value), all three bases, one isotherm
 MCPropMapsT == {p \in [Keys -> 0..NV] : "molar_mass" \in Keys => p["molar_mass"] <= 1}
 \* behaviours for replay (MatRegSim.cfg, tlc -simulate): all three keys, three names (two differ in letter case only),
